@@ -53,6 +53,13 @@ MOUNTS = {
     "probminhasher/sig.rs": "sig.rs",
 }
 
+# isolated mount sets: harnesses with `iso=<key>` run in a scratch copy of their own in which ONLY these modules
+# (and common.rs) are mounted, so that they keep compiling when an unrelated harness module stops compiling
+# against a changed tree (e.g. a changed field layout breaks a struct-literal helper).
+ISO_MOUNTS = {
+    "exp01_new": {"exp01.rs": "exp01_new.rs"},
+}
+
 ENV = dict(os.environ)
 ENV.update({
     "CARGO_NET_OFFLINE": "true",
@@ -199,10 +206,11 @@ def fq_name(name):
     """fully qualified harness name; harness names start with the property id and every
     harness file declares its harnesses at top level of `verif_kani`"""
     hf = harness_file_of(name)
-    for rel, f in MOUNTS.items():
-        if f == hf:
-            mod = rel[:-3].replace("/", "::")
-            return "%s::verif_kani::%s" % (mod, name)
+    for mset in [MOUNTS] + list(ISO_MOUNTS.values()):
+        for rel, f in mset.items():
+            if f == hf:
+                mod = rel[:-3].replace("/", "::")
+                return "%s::verif_kani::%s" % (mod, name)
     raise RuntimeError("no mount for harness file %s" % hf)
 
 
@@ -280,7 +288,8 @@ def build_deps_cache(force=False):
 class Harness:
     def __init__(self, name, timeout=300, tier="quick", desc="", bounds="", funcs=None,
                  stubs=None, assumes=None, expect_cover=True, extra=None, group=None,
-                 unwind_is_violation=False, native_confirm=None):
+                 unwind_is_violation=False, native_confirm=None, iso=None):
+        self.iso = iso
         self.unwind_is_violation = unwind_is_violation
         self.native_confirm = native_confirm
         self.name = name
@@ -461,7 +470,7 @@ def make_replay(prop, h, res, src_scratch, target_dir, logdir):
             shutil.copy(os.path.join(HARNESS_DIR, f), os.path.join(rdir, "harness", f))
     hf = harness_file_of(h.name)
     info = {
-        "property": prop, "harness": h.name, "harness_file": hf, "fq_name": fq_name(h.name),
+        "property": prop, "harness": h.name, "harness_file": hf, "fq_name": fq_name(h.name), "iso": h.iso,
         "repo_fingerprint": repo_fingerprint(), "repo_head": repo_head(),
         "failed_checks": res.get("failed_checks", []), "playback_test": test_name,
         "how": "python3 %s/lib/pmhv.py --replay %s   (exit 1 = the violation reproduces natively)" % (VERIF, rdir),
@@ -520,7 +529,7 @@ def run_replay(rdir):
     saved = HARNESS_DIR
     HARNESS_DIR = os.path.join(rdir, "harness")
     try:
-        d, src = make_scratch("replay")
+        d, src = make_scratch("replay", mounts=ISO_MOUNTS.get(info.get("iso")))
     finally:
         HARNESS_DIR = saved
     notes = []
@@ -659,11 +668,17 @@ def run_property(prop, spec, tier, seed, only=None, keep=False, jobs=None):
     errors = []
     lemmas = []
     d = None
+    iso_dirs = []
     try:
         cache = build_deps_cache()
         d, src = make_scratch(prop.lower())
         logdir = os.path.join(d, "logs")
         os.makedirs(logdir)
+        iso_src = {None: src}
+        for key in sorted(set(h.iso for h in hs if h.iso)):
+            d2, s2 = make_scratch("%s-%s" % (prop.lower(), key), mounts=ISO_MOUNTS[key])
+            iso_dirs.append(d2)
+            iso_src[key] = s2
         for lf in spec.get("lemmas", []):
             lemmas += lf(d)
         nworkers = max(1, min(jobs or NCPU, len(hs)))
@@ -692,7 +707,7 @@ def run_property(prop, spec, tier, seed, only=None, keep=False, jobs=None):
                     mem_used[0] += wgt
                 try:
                     wait_for_memory()
-                    r = run_kani_harness(h, src, tdir, logdir)
+                    r = run_kani_harness(h, iso_src[h.iso], tdir, logdir)
                 finally:
                     with mem_cv:
                         mem_used[0] -= wgt
@@ -711,7 +726,7 @@ def run_property(prop, spec, tier, seed, only=None, keep=False, jobs=None):
                         r["reproduced"] = True
                         r["replay_note"] = "cover after the call SATISFIED (solver witness that the call returns); see kani.log"
                     else:
-                        rdir, reproduced, note = make_replay(prop, h, r, src, tdir, logdir)
+                        rdir, reproduced, note = make_replay(prop, h, r, iso_src[h.iso], tdir, logdir)
                         r["replay"] = rdir
                         r["reproduced"] = reproduced
                         r["replay_note"] = note
@@ -728,6 +743,9 @@ def run_property(prop, spec, tier, seed, only=None, keep=False, jobs=None):
     finally:
         if d and not keep:
             shutil.rmtree(d, ignore_errors=True)
+        for d2 in iso_dirs:
+            if not keep:
+                shutil.rmtree(d2, ignore_errors=True)
 
     results.sort(key=lambda hr: hr[0].name)
     for h, r in results:
